@@ -1,6 +1,7 @@
 package rules
 
 import (
+	"go/constant"
 	"fmt"
 	"go/token"
 	"go/types"
@@ -824,6 +825,11 @@ func (c *Ctx) ruleWorkerServesEveryRequest(idServe, idAlive string) {
 			}
 		}
 		if sel == nil {
+			// the select may sit in a helper that the worker loop calls to get its next request
+			// (for { in, ok := nextRequest(ctx, ch); if !ok { return }; serve(in) })
+			if c.workerWithReceiveHelper(ruS, ruA, f, d, hasSelect) {
+				n++
+			}
 			continue
 		}
 		n++
@@ -914,4 +920,219 @@ func (c *Ctx) ruleWorkerServesEveryRequest(idServe, idAlive string) {
 		}
 	}
 	any.Anchor(n > 0, "a worker that takes publish requests out of a channel and distributes them")
+}
+
+// workerWithReceiveHelper decides the two worker rules for the shape in which the worker loop obtains its next request
+// from a helper that holds the select: for { in, ok := next(ctx, ch); if !ok { return }; …Distribute(in)… }.
+// f is the function that calls Distribute (the worker itself or the helper serving one request), d that call.
+func (c *Ctx) workerWithReceiveHelper(ruS, ruA *report.Rule, f *ssa.Function, d *core.Call, hasSelect func(*ssa.Function) *ssa.Select) bool {
+	type cand struct {
+		w      *ssa.Function
+		distPt ssa.Instruction
+	}
+	cands := []cand{{f, d.Instr}}
+	for _, site := range c.P.StaticCallers(f) {
+		if _, isGo := site.(*ssa.Go); !isGo {
+			cands = append(cands, cand{site.Parent(), site})
+		}
+	}
+	for _, cd := range cands {
+		w := cd.w
+		loops := core.Loops(w)
+		for _, cl := range core.CallsIn(w) {
+			cv, isCall := cl.Instr.(*ssa.Call)
+			if !isCall || cl.Static == nil || !c.P.IsModPkg(cl.Static.Pkg.Pkg) {
+				continue
+			}
+			s := cl.Static
+			sel := hasSelect(s)
+			loop := core.InnermostLoop(loops, cv.Block())
+			if sel == nil || loop == nil || !loop.Blocks[cd.distPt.Block()] {
+				continue
+			}
+			c.R.Fn(c.fname(f))
+			c.R.Fn(c.fname(w))
+			c.R.Fn(c.fname(s))
+			// arms of the helper's select
+			var idx ssa.Value
+			if sel.Referrers() != nil {
+				for _, r := range *sel.Referrers() {
+					if ex, ok := r.(*ssa.Extract); ok && ex.Index == 0 {
+						idx = ex
+					}
+				}
+			}
+			armTarget := func(k int) *ssa.BasicBlock {
+				for _, b := range s.Blocks {
+					iff, ok := b.Instrs[len(b.Instrs)-1].(*ssa.If)
+					if !ok {
+						continue
+					}
+					bo, ok := iff.Cond.(*ssa.BinOp)
+					if !ok || bo.Op != token.EQL || bo.X != idx {
+						continue
+					}
+					if kc, ok := bo.Y.(*ssa.Const); ok && kc.Value != nil && kc.Int64() == int64(k) {
+						return b.Succs[0]
+					}
+				}
+				return nil
+			}
+			var doneT, reqT *ssa.BasicBlock
+			reqArm := -1
+			for k, st := range sel.States {
+				if st.Dir != types.RecvOnly {
+					continue
+				}
+				if dc, ok := core.Strip(st.Chan).(*ssa.Call); ok && dc.Call.IsInvoke() && dc.Call.Method.Name() == "Done" {
+					doneT = armTarget(k)
+				} else {
+					reqT = armTarget(k)
+					reqArm = k
+				}
+			}
+			// the result that tells the worker whether the context ended: a constant in every return of the context
+			// arm, the opposite constant in every other return
+			flag, doneVal, why := -1, false, ""
+			if doneT == nil || reqT == nil {
+				why = "the arms of the select in " + c.fname(s) + " cannot be identified"
+			} else {
+				res := s.Signature.Results()
+				for r := 0; r < res.Len() && flag < 0; r++ {
+					if b, ok := res.At(r).Type().Underlying().(*types.Basic); !ok || b.Kind() != types.Bool {
+						continue
+					}
+					okFlag, nDone, nOther := true, 0, 0
+					var dv bool
+					for _, rb := range s.Blocks {
+						ret, isRet := rb.Instrs[len(rb.Instrs)-1].(*ssa.Return)
+						if !isRet {
+							continue
+						}
+						kc, isConst := ret.Results[r].(*ssa.Const)
+						if !isConst || kc.Value == nil {
+							okFlag = false
+							break
+						}
+						v := constant.BoolVal(kc.Value)
+						if doneT.Dominates(rb) {
+							if nDone > 0 && v != dv {
+								okFlag = false
+							}
+							dv = v
+							nDone++
+						} else {
+							if v == dv && nDone > 0 {
+								okFlag = false
+							}
+							if nDone == 0 {
+								dv = !v
+							}
+							nOther++
+						}
+					}
+					// second pass: the other returns all carry !dv
+					if okFlag && nDone > 0 && nOther > 0 {
+						for _, rb := range s.Blocks {
+							if ret, isRet := rb.Instrs[len(rb.Instrs)-1].(*ssa.Return); isRet {
+								v := constant.BoolVal(ret.Results[r].(*ssa.Const).Value)
+								if doneT.Dominates(rb) != (v == dv) {
+									okFlag = false
+								}
+							}
+						}
+						if okFlag {
+							flag, doneVal = r, dv
+						}
+					}
+				}
+				if flag < 0 {
+					why = c.fname(s) + " does not tell its caller, with a constant result per arm, whether the context ended"
+				}
+			}
+			var okv ssa.Value
+			if flag >= 0 && cv.Referrers() != nil {
+				for _, r := range *cv.Referrers() {
+					if ex, ok := r.(*ssa.Extract); ok && ex.Index == flag {
+						okv = ex
+					}
+				}
+				if okv == nil {
+					why = "the worker ignores the result of " + c.fname(s) + " that tells whether the context ended"
+				}
+			}
+			if ruA != nil {
+				bad := why
+				if bad == "" {
+					for _, rb := range w.Blocks {
+						if _, isRet := rb.Instrs[len(rb.Instrs)-1].(*ssa.Return); !isRet || !cv.Block().Dominates(rb) {
+							continue
+						}
+						onDone := false
+						for _, cc := range controllingConds(rb, cv.Block()) {
+							cond, pol := cc.cond, cc.pol
+							if u, ok := cond.(*ssa.UnOp); ok && u.Op == token.NOT {
+								cond, pol = u.X, !pol
+							}
+							if cond == okv && pol == doneVal {
+								onDone = true
+							}
+						}
+						if !onDone {
+							bad = "the worker returns at " + c.P.Pos(lastPos(rb)) + " although its context has not ended: that worker is gone for the rest of the broker's life"
+						}
+					}
+				}
+				ruA.Check(bad == "", "exits of the worker loop in "+c.fname(w), c.where(w, w), "only when "+c.fname(s)+" reports the end of the context", bad)
+			}
+			if ruS != nil {
+				bad := why
+				if bad == "" {
+					// the helper hands out every request it receives …
+					if sl := core.InnermostLoop(core.Loops(s), sel.Block()); sl != nil {
+						for _, pr := range sl.Header.Preds {
+							if sl.Blocks[pr] && reqT.Dominates(pr) {
+								bad = "a request taken out of the channel by " + c.fname(s) + " can be dropped there (back edge at " + c.P.Pos(lastPos(pr)) + ")"
+							}
+						}
+					}
+					for _, rb := range s.Blocks {
+						ret, isRet := rb.Instrs[len(rb.Instrs)-1].(*ssa.Return)
+						if !isRet || !reqT.Dominates(rb) {
+							continue
+						}
+						carried := false
+						for _, rv := range ret.Results {
+							if depReaches(rv, func(x ssa.Value) bool {
+								ex, ok := x.(*ssa.Extract)
+								return ok && ex.Tuple == ssa.Value(sel) && ex.Index >= 2
+							}) {
+								carried = true
+							}
+						}
+						if !carried {
+							bad = c.fname(s) + " does not return the request it received (" + c.P.Pos(lastPos(rb)) + ")"
+						}
+					}
+					_ = reqArm
+					// … and the worker distributes it before asking for the next one
+					for _, pr := range loop.Header.Preds {
+						if loop.Blocks[pr] && !cd.distPt.Block().Dominates(pr) {
+							bad = "a request can go back to the top of the worker loop without having been distributed (back edge at " + c.P.Pos(lastPos(pr)) + ")"
+						}
+					}
+					if f != w {
+						for _, rb := range f.Blocks {
+							if _, isRet := rb.Instrs[len(rb.Instrs)-1].(*ssa.Return); isRet && !d.Instr.Block().Dominates(rb) {
+								bad = c.fname(f) + " can return (" + c.P.Pos(lastPos(rb)) + ") without having called Distribute"
+							}
+						}
+					}
+				}
+				ruS.Check(bad == "", "request arm of the worker in "+c.fname(w), c.where(w, w), "Distribute on every path from the received request to the next receive", bad)
+			}
+			return true
+		}
+	}
+	return false
 }
